@@ -171,78 +171,34 @@ unsigned int umul16_hi(unsigned short a, unsigned short b)
 
 uint64_t rot_left(uint64_t size, uint64_t a, uint64_t b)
 {
-    uint64_t tmp;
+    uint64_t mask;
 
-    b = b & 0x3F;
-    b %= size;
-    switch(size){
-	    case 8:
-		    tmp = (a << b) | ((a & 0xFF) >> (size - b));
-		    return tmp & 0xFF;
-	    case 16:
-		    tmp = (a << b) | ((a & 0xFFFF) >> (size - b));
-		    return tmp & 0xFFFF;
-	    case 32:
-		    tmp = (a << b) | ((a & 0xFFFFFFFF) >> (size - b));
-		    return tmp & 0xFFFFFFFF;
-	    case 64:
-		    tmp = (a << b) | ((a&0xFFFFFFFFFFFFFFFF) >> (size - b));
-		    return tmp & 0xFFFFFFFFFFFFFFFF;
-
-	    /* Support cases for rcl */
-	    case 9:
-		    tmp = (a << b) | ((a & 0x1FF) >> (size - b));
-		    return tmp & 0x1FF;
-	    case 17:
-		    tmp = (a << b) | ((a & 0x1FFFF) >> (size - b));
-		    return tmp & 0x1FFFF;
-	    case 33:
-		    tmp = (a << b) | ((a & 0x1FFFFFFFF) >> (size - b));
-		    return tmp & 0x1FFFFFFFF;
-	    /* TODO XXX: support rcl in 64 bit mode */
-
-	    default:
-		    fprintf(stderr, "inv size in rotleft %"PRIX64"\n", size);
-		    exit(EXIT_FAILURE);
+    if (size == 0 || size > 64) {
+	    fprintf(stderr, "inv size in rotleft %"PRIX64"\n", size);
+	    exit(EXIT_FAILURE);
     }
+    mask = (size == 64) ? 0xFFFFFFFFFFFFFFFFULL : ((1ULL << size) - 1);
+    a &= mask;
+    b %= size;
+    if (b == 0)
+	    return a;
+    return ((a << b) | (a >> (size - b))) & mask;
 }
 
 uint64_t rot_right(uint64_t size, uint64_t a, uint64_t b)
 {
-    uint64_t tmp;
+    uint64_t mask;
 
-    b = b & 0x3F;
-    b %= size;
-    switch(size){
-	    case 8:
-		    tmp = ((a & 0xFF) >> b) | (a << (size - b));
-		    return tmp & 0xff;
-	    case 16:
-		    tmp = ((a & 0xFFFF) >> b) | (a << (size - b));
-		    return tmp & 0xFFFF;
-	    case 32:
-		    tmp = ((a & 0xFFFFFFFF) >> b) | (a << (size - b));
-		    return tmp & 0xFFFFFFFF;
-	    case 64:
-		    tmp = ((a & 0xFFFFFFFFFFFFFFFF) >> b) | (a << (size - b));
-		    return tmp & 0xFFFFFFFFFFFFFFFF;
-
-	    /* Support cases for rcr */
-	    case 9:
-		    tmp = ((a & 0x1FF) >> b) | (a << (size - b));
-		    return tmp & 0x1FF;
-	    case 17:
-		    tmp = ((a & 0x1FFFF) >> b) | (a << (size - b));
-		    return tmp & 0x1FFFF;
-	    case 33:
-		    tmp = ((a & 0x1FFFFFFFF) >> b) | (a << (size - b));
-		    return tmp & 0x1FFFFFFFF;
-	    /* TODO XXX: support rcr in 64 bit mode */
-
-	    default:
-		    fprintf(stderr, "inv size in rotright %"PRIX64"\n", size);
-		    exit(EXIT_FAILURE);
+    if (size == 0 || size > 64) {
+	    fprintf(stderr, "inv size in rotright %"PRIX64"\n", size);
+	    exit(EXIT_FAILURE);
     }
+    mask = (size == 64) ? 0xFFFFFFFFFFFFFFFFULL : ((1ULL << size) - 1);
+    a &= mask;
+    b %= size;
+    if (b == 0)
+	    return a;
+    return ((a >> b) | (a << (size - b))) & mask;
 }
 
 /*
